@@ -90,13 +90,16 @@ pub fn specs(thorough: bool) -> Vec<BuildSpec> {
         }
     }
     // (2c) paths that are related to each other: one a suffix / prefix of the other, same base name in different directories
-    let related: [&[&str]; 6] = [
+    let related: [&[&str]; 8] = [
         &["/opt/vendor/usr/bin/tool", "/usr/bin/tool"],
         &["/a/b/f", "/b/f", "/f"],
         &["/usr/bin/tool", "/usr/bin/tool.d/tool"],
         &["/d/a", "/d/a.bak", "/d/aa"],
         &["/x/y", "/x/y/z"],
         &["/d/File", "/d/file", "/D/file"],
+        // byte order of the full path is not component order: '-' and '.' sort before '/'
+        &["/lib/x", "/lib-1.0/y", "/lib.d/z", "/lib/sub/w", "/lib.conf"],
+        &["/demo/a", "/demo.d/a", "/demo a/a", "/demo+/a"],
     ];
     for set in related {
         for c in [Comp::None, Comp::Gzip(6)] {
